@@ -27,6 +27,11 @@ type NodeSpec struct {
 	St    bool  `json:"st,omitempty"`    // has the state pre-handler (stamp + save / rebuild)
 	Rerun []int `json:"rerun,omitempty"` // attempts (1-based, counted over the whole run) that return InterruptAndRerun
 	Delay int   `json:"delay,omitempty"` // sleep in units of 300us before returning (eager schedules)
+	// Leaf: (workflow lambdas only) the node's output type is string, not a map: it returns the size of
+	// its input; every data edge out of it is mapped with ToField("n<id>").
+	Leaf bool `json:"leaf,omitempty"`
+	// InKey > 0: the node is added WithInputKey("n<InKey>"), InKey being its only data predecessor.
+	InKey int `json:"inkey,omitempty"`
 }
 
 // Edge kinds: 0 = data + control (Graph.AddEdge / Workflow AddInput),
@@ -130,6 +135,9 @@ func (c *Case) Validate() error {
 			if len(n.Rerun) > 0 && n.Sub != 0 {
 				return fmt.Errorf("graph %d node %d: a graph node cannot be a rerun node", gi, n.ID)
 			}
+			if n.Leaf && (g.Mode != "wf" || n.Sub != 0 || n.InKey != 0) {
+				return fmt.Errorf("graph %d node %d: a leaf node is a plain workflow lambda", gi, n.ID)
+			}
 		}
 		if g.Mode == "wf" && !g.State {
 			return fmt.Errorf("graph %d: workflow graphs carry state (schedule observation)", gi)
@@ -160,6 +168,29 @@ func (c *Case) Validate() error {
 					if !has(b.Targets, t) {
 						return fmt.Errorf("graph %d: branch row outside targets", gi)
 					}
+				}
+			}
+		}
+		for _, n := range g.Nodes {
+			if n.Leaf {
+				for _, b := range g.Branches {
+					if b.From == n.ID {
+						return fmt.Errorf("graph %d node %d: a leaf node cannot carry a branch", gi, n.ID)
+					}
+				}
+			}
+			if n.InKey != 0 {
+				p := g.node(n.InKey)
+				if p == nil || p.Leaf {
+					return fmt.Errorf("graph %d node %d: input key of an unknown or leaf node", gi, n.ID)
+				}
+				for _, e := range g.Edges {
+					if e.To == n.ID && e.Kind != 1 && e.From != n.InKey {
+						return fmt.Errorf("graph %d node %d: input key needs a single data predecessor", gi, n.ID)
+					}
+				}
+				if g.Mode == "wf" {
+					return fmt.Errorf("graph %d node %d: input keys are not used in workflows", gi, n.ID)
 				}
 			}
 		}
